@@ -62,6 +62,15 @@ theorem skeleton_matches_keys (info : Nat → ObjInfo) :
       callsOk Gen.Access.skel (mKeyCompressedEncode info) = true) :=
   ⟨⟨rfl, rfl⟩, ⟨rfl, rfl⟩, ⟨rfl, rfl⟩, ⟨rfl, rfl⟩, ⟨rfl, rfl⟩⟩
 
+/-- **no_shared_module_state**: the code reachable from the modelled operations (all of `ellipticcurve.py`'s classes and
+module functions, `numbertheory` as far as they call it, the five key-level methods) keeps no mutable state outside the two
+fields of a point object and the key's reference: the static check of `gen_access.py` found no updated module-level /
+class-level container, no `global`, no store to a class attribute, no in-place update of a container held in an attribute
+(`self.__coords[0] = …`, `.append` on a field value …) and no mutable default argument.  (A read-only module-level table
+is listed in `Gen.Access.readonly_module_containers`; findings in unreachable functions in
+`Gen.Access.shared_state_outside_scope`.)  Threads that share no point object therefore share nothing. -/
+theorem no_shared_module_state : Gen.Access.shared_module_state = [] := rfl
+
 /-- every method of the class that touches the two fields is modelled -/
 theorem modelled_methods_cover (info : Nat → ObjInfo) :
     ∀ m ∈ Gen.Access.touched, m ∈ (methods info).map (·.1) := by
